@@ -230,6 +230,37 @@ def case_oracle(case, res: ShardResult | None = None):
                               f"({spec['nodes'][i]['op']})")
                 if f:
                     return f, info
+        # --- (a') history: a node hashed first and (un)tagged afterwards
+        # behaves like an equal node that was never hashed
+        from pvf.usertags import PvfTag
+        p4 = build_pt(spec, reuse=reuse)       # nothing of it is ever hashed
+        for pick in picks:
+            i = min(int(pick * len(p1.nodes)), len(p1.nodes) - 1)
+            x, y = p1.nodes[i], p4.nodes[i]
+            if not isinstance(x, pt.Array) or x is y:
+                continue
+            try:
+                fresh = y.tagged(PvfTag("hist"))     # never hashed before
+            except Exception:  # noqa: BLE001
+                continue          # (a class that is documented untaggable)
+            hx = hash(x)                             # hashed first ...
+            t = x.tagged(PvfTag("hist"))             # ... tagged afterwards
+            info["history"] = info.get("history", 0) + 1
+            f = eq_checks(t, fresh, f"node {i} hashed, then tagged, vs an equal "
+                          "node tagged without having been hashed")
+            if f:
+                return f, info
+            if t == x:
+                return Failure("tag-ignored-by-eq", "x.tagged(t) == x",
+                               type(x).__name__), info
+            back = t.without_tags(PvfTag("hist"))
+            f = eq_checks(back, x, f"node {i} tagged and untagged again")
+            if f:
+                return f, info
+            if hash(back) != hx:
+                return Failure("equal-but-hash-differs", "tag added and "
+                               "removed: hash differs from the original's",
+                               type(x).__name__), info
         # --- (b) single-field mutations
         nodes = [n for n in reflect.topo_order(a)
                  if dataclasses.is_dataclass(n) or isinstance(
@@ -407,6 +438,9 @@ def run_shard(shard: int, nshards: int, seed: int, tier: str) -> ShardResult:
             items.append((json.dumps(info["nd"]), info["blob"]))
 
     hyp_run(cases(), body, seed, pl["examples"])
+    for f, c in churn_check(shard, res) + symbolic_spelling_check(shard, nshards,
+                                                                  res):
+        res.fail(f, c)
     hs = [(seed * 7 + shard * 3 + k) % 1000 + 1 for k in range(pl["children"])]
     bad = run_children(items, hs)
     res.count("cross_process_pairs", len(items) * len(hs))
@@ -417,6 +451,88 @@ def run_shard(shard: int, nshards: int, seed: int, tier: str) -> ShardResult:
                  {"spec": json.loads(spec_json), "picks": [],
                   "cross_process": True})
     return res
+
+
+def churn_check(shard: int, res: ShardResult, n: int = 2500):
+    """thousands of == on short-lived temporaries in one process: verdicts
+    must not depend on what was compared before (object addresses get
+    reused; a memo keyed on id() that outlives its objects goes stale)"""
+    import numpy as np
+    import pytato as pt
+    out = []
+    with warnings.catch_warnings():
+        warnings.simplefilter("ignore")
+        x = pt.make_placeholder("x", (3, 4), np.float64)
+        for k in range(n):
+            c = (k * 7 + shard) % 23
+            make = [lambda c=c: (x + c) * 2, lambda c=c: pt.sin(x * c).T,
+                    lambda c=c: pt.roll(x, c % 3, 1) - c,
+                    lambda c=c: (x[:, c % 4] + c).reshape(3, 1)][k % 4]
+            u, v, w = make(), make(), make() + 1
+            res.evaluations += 1
+            if not (u == v) or hash(u) != hash(v):
+                out.append((Failure("rebuilt-not-equal", f"comparison #{k} in a"
+                                    " long run: two builds of one expression "
+                                    "compare unequal (or hash differently)",
+                                    "churn"), {"churn": k, "shard": shard}))
+                break
+            if u == w or w == v:
+                out.append((Failure("different-but-equal", f"comparison #{k} in"
+                                    " a long run: e and e + 1 compare equal",
+                                    "churn"), {"churn": k, "shard": shard}))
+                break
+            del u, v, w
+    res.count("churn_comparisons", n)
+    return out
+
+
+def symbolic_spelling_check(shard: int, nshards: int, res: ShardResult):
+    """placeholders / receives whose shapes denote the same affine form in
+    different spellings (n + 1 vs 1 + n, n + n vs 2 * n): whatever == says,
+    equal nodes must hash equally, and == must be an equivalence"""
+    import itertools
+    import numpy as np
+    import pytato as pt
+    from pvf.props.c16 import build_form
+    out = []
+    forms = [(1, 1), (0, 2), (2, 1), (1, 1, 1), (0, 2, 1), (3, 0, 2)]
+    spell = [0, 0b01, 0b10, 0b11, 0b10000000101, 0b11100000110, 0b1000001001]
+    k = 0
+    with warnings.catch_warnings():
+        warnings.simplefilter("ignore")
+        for f in forms:
+            for sa, sb in itertools.combinations(spell, 2):
+                k += 1
+                if k % nshards != shard:
+                    continue
+                try:
+                    ea, eb = build_form(f, sa), build_form(f, sb)
+                    pa = pt.make_placeholder("p", (ea, 3), np.float64)
+                    pb = pt.make_placeholder("p", (eb, 3), np.float64)
+                    ra = pt.make_distributed_recv(0, 5, (ea,), np.float64)
+                    rb = pt.make_distributed_recv(0, 5, (eb,), np.float64)
+                except Exception:  # noqa: BLE001
+                    continue
+                res.evaluations += 1
+                res.nontrivial.add(f"spelling:{f}:{sa}:{sb}")
+                for a, b, what in ((pa, pb, "Placeholder"),
+                                   (ra, rb, "DistributedRecv"),
+                                   (pt.roll(pa, 1, 1) + 1, pt.roll(pb, 1, 1) + 1,
+                                    "expression over the placeholder")):
+                    if (a == b) and hash(a) != hash(b):
+                        out.append((Failure(
+                            "equal-but-hash-differs", f"{what} with shape form "
+                            f"{f} spelled in two ways: == says equal, hashes "
+                            "differ", "symbolic-shape|" + what),
+                            {"spelling": [list(f), sa, sb]}))
+                        return out
+                    if (a == b) != (b == a):
+                        out.append((Failure("not-symmetric", what,
+                                            "symbolic-shape"),
+                                    {"spelling": [list(f), sa, sb]}))
+                        return out
+    res.count("symbolic_spelling_pairs", k)
+    return out
 
 
 def _xproc_failure(spec, hs, msg) -> Failure:
@@ -437,6 +553,12 @@ def _xproc_failure(spec, hs, msg) -> Failure:
 
 
 def replay(case) -> Failure | None:
+    if "churn" in case:
+        r = churn_check(case.get("shard", 0), ShardResult())
+        return r[0][0] if r else None
+    if "spelling" in case:
+        r = symbolic_spelling_check(0, 1, ShardResult())
+        return r[0][0] if r else None
     f, info = case_oracle(case)
     if f is None and case.get("cross_process") and "blob" in info:
         bad = run_children([(json.dumps(info["nd"]), info["blob"])], [1, 2, 3])
